@@ -142,10 +142,46 @@ def _find_queries(terms):
   return found
 
 
+def _env(ix, fn):
+  """once_bound_env plus the never-assigned scalar locals of the function's
+  top-level block whose initialiser reads variables that are written only by
+  EARLIER top-level statements (e.g. the out-parameters of an argument parser):
+  top-level statements run once and in order, so the value read is final."""
+  env = U.once_bound_env(ix, fn)
+  top = U.stmts(fn.body)
+  wr = [U.written_vars(s) for s in top]
+  everywhere = U.written_vars(fn.body)
+  for i, s in enumerate(top):
+    if s.get("kind") != "DeclStmt":
+      continue
+    for v in inner(s):
+      if v.get("kind") != "VarDecl" or v.get("id") in env or not v.get("init") or \
+          v["id"] in everywhere or not U._simple_type(cxx.qual_type(v)):
+        continue
+      kids = [c for c in inner(v) if c.get("kind")]
+      if not kids:
+        continue
+      t = term(ix, kids[-1], env)
+      u = uncast(t)
+      if not isinstance(u, tuple) or u[0] == "?":
+        continue
+      fv = U._free_vars(t) & everywhere
+      if all(not (fv & wr[j]) for j in range(i, len(top))):
+        env[v["id"]] = t
+  return env
+
+
+class _Paths(U.Paths):
+  def t(self, e):
+    if not hasattr(self, "_env2"):
+      self._env2 = _env(self.ix, self.fn)
+    return U.norm(self.ix, U.subst(term(self.ix, e, self._env2), self.mapping), self.smart)
+
+
 def _decide_reader(ctx, ix, fn, label, outcome):
   """Evaluates every exit of fn in the five worlds; `outcome(value term, q, world)`
   gives True / False / "error" for the returned value."""
-  P = U.Paths(ix, fn)
+  P = _Paths(ix, fn)
   if {p["id"] for p in fn.params} & P.written:
     raise AnalysisError(f"{label}: a parameter is reassigned")
   exits = []
@@ -306,7 +342,7 @@ def r9_51(ctx):
           calls.append(n)
     if not calls:
       continue
-    env = U.once_bound_env(ix, fn)
+    env = _env(ix, fn)
     cmps = [n for n in order if n.get("kind") == "BinaryOperator" and
             n.get("opcode") in ORDER_OPS and len(inner(n)) == 2]
     for i, call in enumerate(calls):
